@@ -86,7 +86,8 @@ def run(chk):
     ok = len(ga) == 1 and fg.is_form(ga[0].value, f"{D}[byte_offset:byte_offset + len(self.od) // 8]")
     chk.check(ok, "R5", f"{B}:PdoVariable.get_data | aligned slice = the object's bytes", g.loc(gi), f"{[src(n) for n in gi.orelse]}")
     sa = [n for n in si.orelse if isinstance(n, ast.Assign)]
-    ok = len(sa) == 1 and src(sa[0].targets[0]) in (f"{D}[byte_offset:byte_offset + len(data)]",) and src(sa[0].value) == "data"
+    ok = len(sa) == 1 and src(sa[0].value) == "data" and isinstance(sa[0].targets[0], ast.Subscript) and src(sa[0].targets[0].value) == D \
+        and isinstance(sa[0].targets[0].slice, ast.Slice) and src(sa[0].targets[0].slice.lower) == "byte_offset" and fs.is_form(sa[0].targets[0].slice.upper, "byte_offset + len(data)")
     chk.check(ok, "R5", f"{B}:PdoVariable.set_data | aligned store is length-preserving", s.loc(si), f"{[src(n) for n in si.orelse]}")
 
     _get_unaligned(chk, folder, fg, g, gi)
